@@ -1,4 +1,10 @@
-HOOK_COMMITS = []
-ENGINES = []
+HOOK_COMMITS = ["a763128"]
+ENGINES = [
+ {"name": "E3-history", "path": "harness/c13_index.c", "serves_properties": ["C13"], "kind_free_text": "depth-bounded exhaustive enumeration of API operation histories on the real implementation, reference model compared in every state"},
+]
 NOTES = "Bounded-exhaustive exploration of the real code (see DESIGN.md)."
 NA = {}
+CHECKS["C13"] = dict(category="model_checking", engine="E3-history",
+  technique="explicit-state enumeration of all lzma_index_* operation histories to a depth on the real code + list-of-records reference model; exhaustive read-size/seek schedules for the file-info decoder against an independent .xz parser",
+  text="Every history over the operation alphabets (append with VLI-boundary values, padding, flags, cat with 8 source shapes, dup, encode/decode, iterator-across-mutation) up to depth 3-6 is executed on a fresh lzma_index (ASan+UBSan, assertions on, group size 2 via hook H3 and default 512) and every getter, 4 iteration modes and locate() are compared with a list-of-records model in every state; the file-info decoder is run on every Stream/Block/padding layout for every read size 1..40 and all 2-phase read schedules and compared with an independent parser; xz --list totals are compared on 60 layouts.",
+  note="Trusted: the reference model (harness/c13_index.c) and ref/ref_xz.c parser (self-tested against tests/files). Bounded by depth and by the boundary-value alphabets; BACKWARD_SIZE_MAX limit unreachable.")
